@@ -696,7 +696,7 @@ fn main() {
             // battery: every history of <= 3 operations after the setup (and from scratch), over the witness's keys and times
             times.sort(); times.dedup(); ooos.sort(); ooos.dedup();
             let mut ops: Vec<Op> = Vec::new();
-            for k in &keys { for t in &times { ops.push(Op::Obs(k.clone(), *t)); ops.push(Op::Adv(k.clone(), *t)); } }
+            for k in &keys { for t in &times { ops.push(Op::Obs(k.clone(), *t)); ops.push(Op::Adv(k.clone(), *t)); } for o in &ooos { ops.push(Op::Reg(k.clone(), *o)); } }   // re-registration resets a source's watermark
             let mut count = 1usize;
             'outer: for base in [setup.clone(), Vec::new(), keys.iter().zip(ooos.iter().cycle()).map(|(k, o)| Op::Reg(k.clone(), *o)).collect()] {
                 if bad.is_some() { break }
